@@ -343,7 +343,8 @@ pub fn run(args: &Args) {
         if prop == "C08" {
             let body = &bytes[s.header_len..];
             for m in markers.iter().chain(pmarkers.iter()) {
-                let b64 = base64::Engine::encode(&base64::engine::general_purpose::STANDARD, m);
+                // (a marker may lead a longer value: its base64 image is that of its first 24 bytes)
+                let b64 = base64::Engine::encode(&base64::engine::general_purpose::STANDARD, &m[..m.len() / 3 * 3]);
                 let hexm = hex::encode(m);
                 if find_sub(body, m) || find_sub(body, b64.as_bytes()) || find_sub(body, hexm.as_bytes()) || find_sub(body, &utf16le(m)) {
                     o.violation = Some("a content marker appears in clear (raw/base64/hex/UTF-16) in the saved file".into());
@@ -354,7 +355,7 @@ pub fn run(args: &Args) {
             }
             if !matches!(db.config.inner_cipher_config, InnerCipherConfig::Plain) {
                 for m in &pmarkers {
-                    let b64 = base64::Engine::encode(&base64::engine::general_purpose::STANDARD, m);
+                    let b64 = base64::Engine::encode(&base64::engine::general_purpose::STANDARD, &m[..m.len() / 3 * 3]);
                     if find_sub(&s.xml, m) || find_sub(&s.xml, b64.as_bytes()) {
                         o.violation = Some("a protected value appears in clear or as plain base64 inside the payload".into());
                     }
@@ -370,7 +371,9 @@ pub fn run(args: &Args) {
                 sorted.sort();
                 sorted.dedup();
                 if sorted.len() != cts.len() && cts.iter().any(|c| !c.is_empty()) {
-                    let dup_nonempty = { let mut seen = std::collections::HashSet::new(); cts.iter().any(|c| !c.is_empty() && !seen.insert(*c)) };
+                    // (values of a few bytes collide by chance - 256 possible ciphertexts for one byte - so
+                    //  only ciphertexts of at least 8 bytes, 12 base64 characters, are compared)
+                    let dup_nonempty = { let mut seen = std::collections::HashSet::new(); cts.iter().any(|c| c.len() >= 12 && !seen.insert(*c)) };
                     if dup_nonempty { o.violation = Some("two protected values carry the same ciphertext".into()); }
                 }
                 o.tags.push(format!("protected-values:{}", match cts.len() { 0 => "0", 1 => "1", 2..=5 => "2-5", _ => ">5" }));
